@@ -3062,8 +3062,10 @@ def emit(ast: Program) -> str:
                     globals_.append(line)
 
     function_sections: List[str] = []
+    function_prototypes: List[str] = []
     for fn in getattr(ast, "functions", []):
         params_src = ", ".join(f"{ptype} {name}" for name, ptype in fn.params)
+        function_prototypes.append(f"{fn.return_type} {fn.name}({params_src});\n")
         header = f"{fn.return_type} {fn.name}({params_src}) {{\n"
         body_lines = _emit_block(
             getattr(fn, "body", []),
@@ -3160,10 +3162,12 @@ def emit(ast: Program) -> str:
         parts.append(LEN_HELPER_SNIPPET + "\n")
     if globals_:
         parts.append("\n".join(globals_) + "\n\n")
-    if function_sections:
-        parts.append("".join(function_sections))
     if ultrasonic_sections:
         parts.append("".join(ultrasonic_sections))
+    if function_sections:
+        # Prototypes first: helpers may call helpers that are defined later.
+        parts.append("".join(function_prototypes) + "\n")
+        parts.append("".join(function_sections))
 
     parts.append(SETUP_START)
     parts.append("\n".join(setup_lines) if setup_lines else "  // no setup actions")
